@@ -17,6 +17,9 @@ ENGINES = {
                   kind="generated flag values through validateFlags (package main of spanner_prober)"),
     "codec": dict(module="e2e-checksum", pkg=".", pkgname="main", pkgmarker="main.", harness="codec",
                   kind="generated protobuf messages vs independent wire-format + CRC32C reference"),
+    "cfg": dict(module="grpcgcp", pkg=".", pkgname="grpcgcp", pkgmarker="grpcgcp.", harness="grpcgcp",
+                files=["cfg_test.go", "poolsim_test.go"], instrument=GRPCGCP_INSTR_CLOCK,
+                kind="generated ApiConfig values / JSON texts: differential vs protojson, behavioural observation of the effective config, immutability snapshots"),
 }
 
 POOLSIM_ESSENTIAL = {
@@ -103,6 +106,15 @@ PROPS["C19"] = dict(level="exploration",
     stages=[dict(name="codec", engine="codec", test="TestVerifCodec", batches=dict(quick=4, thorough=16),
                  essential={"C19": ["C19.marshal", "C19.decode:codec", "C19.decode:proto", "C19.error-pass-through"]}, timeout=dict(quick=900, thorough=7200))])
 
+PROPS["C17"] = dict(level="exploration",
+    rule="seeded pb.ApiConfig values (zero values, nil sub-messages, up to 5 method entries with overlapping names, nil entries) and JSON texts (5 protojson renderings + mutations: unknown field, wrong type, truncation, wrong case, duplicates); non-trivial = a config driven through the whole pool observation (initial size, watermark, maxSize, per-method probes) or a parser differential or a GCPMultiEndpoint aliasing check completed; distinct = hash of the config text and variant",
+    assumptions=["method names listed more than once across entries are excluded from the mapping check", "the fake ClientConn of poolsim stands in for gRPC",
+                 "GCPMultiEndpoint pools are dialled with a dialer that always fails (no network is needed for the configuration checks)"],
+    stages=[dict(name="cfg", engine="cfg", test="TestVerifCfg", batches=dict(quick=8, thorough=16),
+                 essential={"C17": ["C17.parse-accept", "C17.parse-reject", "C17.round-trip", "C17.initial-size", "C17.second-update", "C17.caller-mutates", "C17.caller-object-unchanged",
+                                    "C17.effective-config-wb", "C17.method-mapping", "C17.method-key-path", "C17.method-bind", "C17.watermark", "C17.max-size", "C17.gme-config-copy", "C17.gme-update"]},
+                 timeout=dict(quick=900, thorough=7200))])
+
 NOT_APPLICABLE = {}
 
 _POOL_NOTE = ("Trusted: the harness's shadow of the contract, the fake ClientConn/SubConn (gRPC 1.56 calling discipline), the build-time "
@@ -143,3 +155,7 @@ MANIFEST_TEXT["C18"] = dict(technique="runtime monitoring: arithmetic/reference-
 MANIFEST_TEXT["C19"] = dict(technique="runtime monitoring: differential oracle (independent wire-format/CRC32C reference) over generated protobuf messages",
     design_ref="DESIGN.md §5 C19", level_note="Trusted: protowire, hash/crc32, proto.Equal/proto.Unmarshal as the conforming parser. Held = held on the generated messages.",
     level_text="Exploration: tens of thousands of generated messages per quick run; Marshal output must be byte-identical to FD 7F || le32(crc32c(b)) || b for the bytes b the inner codec produced in this call; decoding the output with the codec and with proto.Unmarshal must give the original known fields and the checksum field prepended to the original unknown fields; inner codec errors must be returned unchanged.")
+
+MANIFEST_TEXT["C17"] = dict(technique="runtime monitoring: differential oracle vs protojson, behavioural observation of the effective configuration, before/after snapshots of the caller's object",
+    design_ref="DESIGN.md §5 C17", level_note="Trusted: protojson/proto.Equal as the definition of well-formed renderings, the fake ClientConn, white-box reads of gb.cfg/affinityMap as secondary checks. Held = held on the generated configurations.",
+    level_text="Exploration: thousands of generated configurations per quick run; ParseConfig must accept exactly what protojson accepts with an equal result and round-trip; the pool must start with max(1,minSize) channels, tell the first call to wait exactly at watermark x channels, stop growing at maxSize; every listed-once method must behave per its command and key path and no other method may; a second config update and later mutations of the caller's object must change nothing; the caller's proto is compared before/after; GCPConfig() must be an equal, unaliased deep copy.")
